@@ -27,12 +27,12 @@ L['C03'] = dict(modules=['Schc.Properties.C03'], level='proof', technique='Lean 
 L['C01'] = dict(modules=['Schc.Properties.C01'], level='proof', technique='Lean 4 corollary of C02 + C03 + C04 + C10 + C11',
     theorems=[T('C01_roundtrip', 'full', 'bare compress/decompress round trip for every matched rule of lossless pairings that fit the packet'),
               T('C01_nocompression', 'full', 'no-compression rule round trip'),
-              T('C01_manager', 'full', 'through the context manager, FIRST or BEST, prefix-free rule IDs: found again from the rule ID and restored'),
+              T('C01_manager', 'full', 'through the context manager, FIRST or BEST, prefix-free rule IDs, any mix of direction indicators: found again from the rule ID and restored (direction passed to decompress)'),
               T('C01_roundtrip_compute', 'full', 'round trip for rules with compute fields, given that the compute functions regenerate the elided values'),
               T('C01_ipv6_udp_compute', 'full', 'IPv6/UDP(/anything) packets with valid lengths and checksum: round trip with any subset of payload length, UDP length, UDP checksum computed'),
               T('C01_ipv4_udp_compute', 'full', 'IPv4/UDP(/anything) packets with valid total length, header checksum, UDP length, UDP checksum: round trip with any subset of the four computed'),
               T('C01_sctp_compute', 'full', 'SCTP packets with a valid CRC-32c: round trip with the checksum computed')],
-    level_text='Proved over the model for all packets/rules/rule sets under the stated hypotheses: fields+payload spell the raw packet (C07), descriptors all apply to the packet direction (the C18 finding excludes the rest), pairings equal/not-sent, ignore/value-sent, MSB/LSB, match-mapping/mapping-sent with Fits. Compute fields: C01_roundtrip_compute reduces the round trip to the compute functions regenerating the elided values, and C01_ipv6_udp_compute / C01_ipv4_udp_compute discharge that for the IPv6/UDP and IPv4/UDP stacks (any subset of the computable fields, valid packets; concrete valid packets are kernel-checked examples). C01_sctp_compute does the same for the SCTP checksum. So every registered compute function is covered at its stack position.')
+    level_text='Proved over the model for all packets/rules/rule sets under the stated hypotheses: fields+payload spell the raw packet (C07), bare functions without the direction argument: descriptors all apply to the packet direction; with the argument (C18_roundtrip, C01_manager): any rule, pairings equal/not-sent, ignore/value-sent, MSB/LSB, match-mapping/mapping-sent with Fits. Compute fields: C01_roundtrip_compute reduces the round trip to the compute functions regenerating the elided values, and C01_ipv6_udp_compute / C01_ipv4_udp_compute discharge that for the IPv6/UDP and IPv4/UDP stacks (any subset of the computable fields, valid packets; concrete valid packets are kernel-checked examples). C01_sctp_compute does the same for the SCTP checksum. So every registered compute function is covered at its stack position.')
 L['C04'] = dict(modules=['Schc.Properties.C04'], level='proof', technique='Lean 4 theorem: matcher = filter by the declarative applicability predicate',
     theorems=[T('C04_match', 'full', 'match_packet_descriptor = rules.filter Spec.applicable (soundness, completeness, order)'),
               T('C04_field', 'full', 'one field vs one descriptor, all four operators'), T('C04_first', 'full', 'the first yielded rule'),
@@ -67,11 +67,17 @@ L['C16'] = dict(modules=['Schc.Properties.C16'], level='proof', technique='Lean 
               T('C16_sites', 'full', 'the mutation sites of the SCHC-level modules are exactly the reviewed allow-list (regenerated table)')],
     level_text='Part 1 (Buffer operands): theorems over the byte-level model whose methods return operand post-states, with the inplace flag of each internal call read from the source on this run. Part 2 (no shared object is written above the Buffer): the AST-derived table of every attribute/item assignment, mutating container call and in-place pad/shift must equal a reviewed allow-list — a new cache, memo or in-place call changes the table and breaks the obligation. Part 3 (history independence): the model is a pure function; the hist stream compares every call on long-lived manager / ruler / front end with fresh instances and snapshots all arguments.',
     explanation='aliasing is not modelled as a heap: part 2 is a checked syntactic table plus dynamic snapshots (DESIGN.md §6 C16, §7)')
-L['C18'] = dict(modules=['Schc.Properties.C18'], level='proof', technique='Lean 4: partial theorem + machine-checked counter-example (known finding F-C18-1)',
+L['C18'] = dict(modules=['Schc.Properties.C18', 'Schc.Properties.C01'], level='proof', technique='Lean 4: all three stages run on restrict r d (the descriptors marked d or bidirectional); round trip as a corollary of C01 on the restricted rule',
     theorems=[T('C18_matcher', 'full', 'the matcher uses exactly the descriptors marked d or Bi, in rule order'),
-              T('C18_same_descriptors_partial', 'partial', 'rules whose descriptors all apply to d: all three stages use the same descriptors and the packet round-trips'),
-              T('C18_witness', 'witness', 'a rule with a Dw and an Up descriptor for one field is offered for an Up packet and does not round-trip (F-C18-1)')],
-    level_text='The full statement is FALSE of the current code (compressor and decompressor ignore direction indicators; decompress has no direction parameter): proved negation with a concrete witness, listed as known finding F-C18-1 and replayed on the real code on every run. Proved: the matcher stage at full strength, and the whole property under the hypothesis that is exactly the complement of the finding\'s domain. Any failing input outside that domain is reported as a violation.')
+              T('C18_descriptors', 'full', 'restrict r d = the descriptors marked d or Bi in rule order; rule ID and nature kept'),
+              T('C18_same_descriptors', 'full', 'compress and decompress with direction d run on that same list'),
+              T('C18_manager', 'full', 'what the context manager sends was compressed with the descriptors of the direction it matched by'),
+              T('C18_roundtrip', 'full', 'every rule (any mix of Up / Dw / Bi descriptors, any positions) round-trips every packet it is offered for, each direction with its own descriptors'),
+              T('C01_manager', 'full', 'through the manager, either strategy, with the direction passed to decompress: no hypothesis on the direction indicators any more'),
+              T('C18_all_apply', 'full', 'when every descriptor applies to d the argument changes nothing'),
+              T('C18_witness_repaired', 'test', 'the former counter-example of F-C18-1 round-trips in both directions (kernel-evaluated)'),
+              T('C18_no_direction', 'test', 'without the optional argument all descriptors are used, as before the repair (kernel-evaluated; recorded limit, not a violation)')],
+    level_text='Proved for every rule and packet, both directions, every position of the direction-specific descriptors: with the direction passed (the manager always passes it to compress; decompress takes it as an optional argument) matching, compression and decompression use the same descriptor list, and the rule round-trips. The defect F-C18-1 (compressor and decompressor ignored the indicators) was repaired by fix commit d864896; callers who omit the optional argument get the pre-repair behaviour, which C18_no_direction records.')
 L['C20'] = dict(modules=['Schc.Properties.C20'], level='proof', technique='Lean 4 totality theorems: residue walk + totality of the six compute functions at valid stack positions',
     theorems=[T('C20_total', 'full', 'bare decompress is total for every bit string, rules without compute fields'),
               T('C20_manager_total', 'full', 'manager decompress gives a buffer or RuleIDMatchError for every bit string, rule sets without compute fields'),
